@@ -190,8 +190,11 @@ static int filter_assembly_str_fsa(const char unfiltered_str[],
         filter_str[j++] = (char)tolower(unfiltered_str[i]);
       break;
     }
-    // last printable ascii character
-    FAIL_IF_MSG(unfiltered_str[i] > '~', "Printable ascii characters only\n");
+    // last printable ascii character ('char' may be signed: bytes >= 0x80)
+    if ((unsigned char)unfiltered_str[i] > '~') {
+      fprintf(stderr, "assembyline: Printable ascii characters only\n");
+      return ASM_ERROR;
+    }
     i++;
   }
   return i;
@@ -206,6 +209,7 @@ static int str_to_instr(struct instr *instr_data, const char unfiltered_str[],
   char filter_str[FILTERED_STR_LEN] = {'\0'};
   // sanitize user input and copy filtered string to filter_str
   int ch_pos = filter_assembly_str_fsa(unfiltered_str, filter_str);
+  FAIL_IF(ch_pos == ASM_ERROR);
   // skip comments/macro
   while (unfiltered_str[ch_pos] != '\n' && unfiltered_str[ch_pos] != '\r' &&
          unfiltered_str[ch_pos] != '\0')
